@@ -42,7 +42,7 @@ func (c sigCombo) method(i int) gen.Method {
 	if c.Imported == 2 || c.Imported == 3 {
 		m.DstType = "ext.Pub2"
 		if i%2 == 1 {
-			m.DstType = "v1.Pod" // import path .../api/v1, package v1
+			m.DstType = "v2.Pod" // import path .../api/v2, package v2
 		}
 	}
 	if c.Named {
@@ -50,7 +50,7 @@ func (c sigCombo) method(i int) gen.Method {
 	}
 	argTypes := []string{"int", "*ext.Person", "[]ext2.Item"}
 	if i%3 == 1 {
-		argTypes = []string{"v1.Kind", "*v1.Pod", "[]v1.Kind"}
+		argTypes = []string{"v2.Kind", "*v2.Pod", "[]v2.Kind"}
 	}
 	for k := 0; k < c.NArgs; k++ {
 		a := gen.Arg{Type: argTypes[k]}
